@@ -88,8 +88,8 @@ def _workloads(ctx, which):
         # the repository's scenarios.  thorough: the repository's own full run (every protocol update, every scenario at
         # the first version it is valid for).  quick: all scenarios but the 4-minute max_transaction, after all updates,
         # every 4th transaction
-        fs = ex.submit(record, ctx, which, "scen", "scenarios", ["skip=max_transaction", "every=4"] if q else [])
-        fl = [ex.submit(record, ctx, which, "led%d" % i, "ledger", ["seed=%d" % (ctx.seed + 7919 * i), "len=%d" % (60 if q else 400), "burst=%d" % (0 if q else 1)])
+        fs = ex.submit(record, ctx, which, "scen", "scenarios", ["skip=max_transaction"] if q else [])
+        fl = [ex.submit(record, ctx, which, "led%d" % i, "ledger", ["seed=%d" % (ctx.seed + 7919 * i), "len=%d" % (40 if q else 400), "burst=%d" % (0 if q else 1)])
               for i in range(1 if q else 2)]
         s_sum, s_txs = fs.result()
         l_res = [f.result() for f in fl]
@@ -107,7 +107,7 @@ def X02(ctx):
     q = ctx.quick
     core.build_harness(BIN)
     with ThreadPoolExecutor(max_workers=2) as ex:
-        fm = ex.submit(tlc, "Track", "MCTrack", workers=4, consts={"MaxOps": 3}, timeout=3000)
+        fm = ex.submit(tlc, "Track", "MCTrack", workers=4, consts={"MaxOps": 2 if q else 3}, timeout=3000)   # C12 itself runs it deeper
         fw = ex.submit(_workloads, ctx, "track")
         r = fm.result()
         s_txs, l_txs, ops, outcomes = fw.result()
@@ -118,8 +118,7 @@ def X02(ctx):
         raise ToolError("only %d transactions recorded" % len(txs))
     # non-vacuity: every kind of operation the engine issues was seen
     need = ["create_node", "get", "set", "remove", "scan_keys", "drain", "scan_sorted", "force_write", "revert", "state_updates", "transient"]
-    if not q:
-        need.append("delete_partition")
+    need.append("delete_partition")       # the boundary block of the ledger workload jumps 100 epochs in every tier
     for op in need:
         if ops.get(op, 0) == 0:
             raise ToolError("vacuous recording: no %s event" % op)
@@ -173,12 +172,15 @@ def X02(ctx):
             "rule": "S: MCTrack (the C12 model) exhaustive on its small instance. T: hook H2 records every CommitableSubstateStore call "
                     "of the real Track (operation, substate, hash of every value read / written / returned, final state updates) while "
                     "%s of the repository's transaction scenarios (all protocol versions) and %d seeded LedgerSimulator transactions "
-                    "(transfers incl. failing ones, fee locks on accounts, non-fungible mints / withdrawals by amount, pools, staking, "
-                    "round and epoch changes) execute; each transaction is one trace validated by TraceTrackEngine.tla: reads return the "
+                    "(a fixed boundary block: id listings with limit 0 / 1 / count-1 / count / count+1 over an untouched vault, after "
+                    "moving ids out and in, after a removal, after a mint, on a vault created in the same transaction; withdrawals by "
+                    "amount of 1 / count-1 / count / count+1; failure after an account fee lock; a 100-epoch jump (partition deletion); "
+                    "then seeded transfers incl. failing ones, non-fungible mints / withdrawals, pools, staking, round and epoch "
+                    "changes) execute; each transaction is one trace validated by TraceTrackEngine.tla: reads return the "
                     "abstract view (database values are learned at the first read), scans return present entries only, complete "
                     "when short of the limit, sorted scans in key order, reverts keep exactly the force-written substates, the final "
                     "state updates are exactly the overlaid differences. distinct = distinct transaction event streams"
-                    % ("every 4th transaction (without max_transaction, after all protocol updates)" if q else "every transaction", len(l_txs))}
+                    % ("every transaction (quick: without max_transaction, after all protocol updates)" if q else "every transaction", len(l_txs))}
 
 
 def X03(ctx):
@@ -233,7 +235,7 @@ def X03(ctx):
                     "protocol versions) and %d seeded LedgerSimulator transactions execute; each transaction is one trace validated by "
                     "TraceLocksEngine.tla: every result is the one SubstateLocks.tla determines (next handle number or refusal), "
                     "WriterExclusive and HandlesFresh in every state, no handle open after a successful transaction. "
-                    "distinct = distinct transaction lock streams" % ("every 4th transaction (without max_transaction, after all protocol updates)" if q else "every transaction", len(l_txs))}
+                    "distinct = distinct transaction lock streams" % ("every transaction (quick: without max_transaction, after all protocol updates)" if q else "every transaction", len(l_txs))}
 
 
 def _max_open(t):
